@@ -300,6 +300,79 @@ def body_summary(env):
                       % (k, wall, dct), abs(float(row[-2]) - dpeak[k][wall]) <= 0.006, key='summary_duct_peak_of_another_wall')
 
 
+def body_pin_tables(env):
+    """Peak pin temperature tables through the public path: a three-assembly core with a fuel pin model and a bottom-peaked
+    power shape (so that the peaks of the five radial locations lie at different heights / pins) is swept; at every real
+    update of the pin peaks the pin-temperature array is recorded; each of the five PeakPinTempTable variants must print,
+    for every assembly, the pin, the height and the radial profile of the recorded maximum of *its own* location."""
+    import os
+    import shutil
+    import tempfile
+    from symx import geninp, npshim
+    import dassh
+    import dassh.table as T
+    d = tempfile.mkdtemp(prefix='dassh-verif-c15.')
+    try:
+        mats = ['[[cladmat]]', '    thermal_conductivity = 21.5', '[[gapmat]]', '    thermal_conductivity = 0.35']
+        sub = ['[[[FuelModel]]]', '    gap_thickness = 0.00004', '    clad_material = cladmat', '    gap_material = gapmat',
+               '    r_frac = 0.0, 0.5', '    pu_frac = 0.2, 0.1', '    zr_frac = 0.1, 0.1', '    porosity = 0.25, 0.1']
+        asms = {'a': geninp.default_asm(2, subsections=sub), 'b': geninp.default_asm(3, P=0.0052, D=0.0042, Dw=0.0008, subsections=sub)}
+        shape = (1.6, 1.0, 0.35, 0.1)
+        inp = geninp.write_case(d, asms, [('a', 1, 1, 'FLOWRATE=0.25'), ('b', 2, 1, 'FLOWRATE=0.5'), ('a', 2, 3, 'FLOWRATE=0.2')],
+                                gap_model='none', core_len=0.08, materials_extra=mats, other_power=100.0,
+                                power_cells=[(0.0, 0.02), (0.02, 0.04), (0.04, 0.06), (0.06, 0.08)],
+                                pin_power=lambda k, ci=0: 6e3 * (1 + 0.15 * k) * shape[ci])
+        cols = {'clad_od': 4, 'clad_mw': 5, 'clad_id': 6, 'fuel_od': 7, 'fuel_cl': 8}
+        with npshim.unpatched():
+            r = dassh.Reactor(dassh.DASSH_Input(inp), path=os.path.join(d, 'out'), write_output=False, axial_mesh_size=0.004)
+            best = [{k: None for k in cols} for _ in r.assemblies]
+
+            def spy(k, asm, real):
+                def f():
+                    arr = np.array(asm.pin_temp_array, dtype=float)
+                    for nm, c in cols.items():
+                        j = int(np.argmax(arr[:, c]))
+                        if best[k][nm] is None or arr[j, c] > best[k][nm][c]:
+                            best[k][nm] = arr[j].copy()
+                    return real()
+                return f
+            for k, asm in enumerate(r.assemblies):
+                asm._update_peak_pin_temps = spy(k, asm, asm._update_peak_pin_temps)
+            r._data_setup()
+            r._data_open()
+            r.axial_step0()
+            for i in range(1, len(r.z)):
+                r.axial_step(r.z[i], r.dz[i - 1], i, False)
+            try:
+                r._data_close()
+            except (AttributeError, KeyError):
+                pass
+            tabs = {}
+            for comp, reg in (('clad', 'od'), ('clad', 'mw'), ('clad', 'id'), ('fuel', 'od'), ('fuel', 'cl')):
+                t_ = T.PeakPinTempTable(comp, reg)
+                t_.make(r)
+                tabs[comp + '_' + reg] = [l.split() for l in t_._table.splitlines() if l.strip() and l.split()[0].isdigit()]
+    finally:
+        shutil.rmtree(d, ignore_errors=True)
+    hts = set()
+    for nm, c in cols.items():
+        rows = tabs[nm]
+        env.holds('%s table: one row per assembly' % nm, len(rows) == len(best))
+        for k in range(min(len(rows), len(best))):
+            b = best[k][nm]
+            row = rows[k]
+            # columns: index, name, pin, height, power, coolant, clad od, mw, id, fuel od, cl (as many as the table has)
+            pin, ht = int(row[2]), float(row[3])
+            temps = [float(x) for x in row[5:] if x.replace('.', '', 1).replace('-', '', 1).isdigit()]
+            want = [float(x) for x in b[3:3 + len(temps)]]
+            hts.add((k, round(float(b[1]), 6)))
+            env.holds('%s table, assembly %d: pin and height of the maximum of that location' % (nm, k),
+                      pin == int(b[2]) and abs(ht - float(b[1])) <= 0.051, key='pin_table_reports_another_location')
+            env.holds('%s table, assembly %d: radial profile at the pin and height of that maximum (0.06 K)' % (nm, k),
+                      len(temps) >= 1 and all(abs(x - y) <= 0.06 for x, y in zip(temps, want)), key='pin_table_reports_another_location')
+    env.holds('fixture: the five locations do not all peak at the same height', len(hts) > len(best))
+
+
 def instances(tier):
     inst = []
     for n, steps in ([(2, 1), (3, 1), (2, 2), (3, 2)] if tier == 'quick' else [(2, 1), (3, 1), (4, 1), (2, 2), (3, 2), (4, 2), (3, 3), (5, 1)]):
@@ -324,6 +397,7 @@ def instances(tier):
                            ('double duct, unrodded region below the rods', dd, [('lower', 0.0, 0.02, 0.3)]),
                            ('double duct, unrodded region above the rods', dd, [('upper', 0.04, 0.06, 0.3)])):
         inst.append(dict(label='summary-tables[%s]' % nm, body=body_summary, params={'ftf': ftf, 'axial': axial}, check_vacuity=False))
+    inst.append(dict(label='pin-tables[fuel model, bottom-peaked power]', body=body_pin_tables, params={}, check_vacuity=False))
     return inst
 
 
